@@ -47,6 +47,17 @@ def run(chk):
     chk.lean("FfcxProofs.C09", ["Ffcx.LNodes.mathfn_fold_sound", "Ffcx.LNodes.mergeDtypes_comm", "Ffcx.LNodes.mergeDtypes_scalar_absorbs",
                                 "Ffcx.LNodes.mergeDtypes_real", "Ffcx.LNodes.real_literal_real", "Ffcx.LNodes.ratExtraC_real"])
     math_table_check(chk)
+    # dtype discipline: no complex value flows into a double temporary or a real math function (certificate per kernel,
+    # dtype_sound: truncating semantics = exact semantics), complete math-table signature scan, complex-argument probes
+    from .. import dtype_checks
+    chk.lean(dtype_checks.DTYPE_MODULE, dtype_checks.DTYPE_THEOREMS, extra_files=dtype_checks.DTYPE_FILES)
+    with lean.Driver("driver") as d:
+        dtype_checks.check_math_table(chk, d)
+        dents = corpus.fixed() + corpus.expressions() + corpus.complex_forms()
+        if chk.tier == "thorough":
+            dents += corpus.generated(chk.seed, 30)
+        dtype_checks.check_dtype_certificates(chk, d, dents, ("complex128", "float64") + (("complex64",) if chk.tier == "thorough" else ()))
+        dtype_checks.check_dtype_probes(chk, d)
     names = ["mass_tri_p1", "laplace_coef_tri_p2", "rhs_tri_p2", "ext_facet_tri", "int_facet_tri", "math_tri", "conditional_tri",
              "tensor_constant", "nonaffine_quad", "expr_rank1", "expr_grad_tri"]
     ents = [e for e in corpus.fixed() + corpus.expressions() if e.name in names] + corpus.complex_forms()
@@ -73,6 +84,9 @@ def run(chk):
             chk.notes.setdefault("build_errors", []).append(f"{e.name}/{t}: {r['error'][:120]}")
             if "ArityMismatch" in r["error"] and t.startswith("complex"):
                 chk.case("not_valid_in_complex_mode", None)   # UFL rejects forms without a conjugated test function
+            elif "not supported for complex arguments" in r["error"] and t.startswith("complex"):
+                # erf / atan2 / Bessel / fmin / fmax have no complex version: rejected before any C is emitted (fix c5f832c)
+                chk.case("rejected_in_complex_mode", f"{e.name}:{t}")
             elif "real_only" not in r["error"]:
                 chk.disagree("form compiles for float64 but not for another scalar type", {"entry": e.name, "type": t, "error": r["error"][:300]})
             continue
